@@ -36,7 +36,7 @@ def macro_stream(nontrivial=(), quick=320, thorough=5000, what=""):
 
 def sched_stream(nontrivial=(), quick=(6, 4, 120), thorough=(14, 10, 1500), what=""):
     return {"kind": "sched", "budget": {"quick": quick, "thorough": thorough}, "nontrivial": list(nontrivial),
-            "what": what or "L3: 2-3 real threads running short programs (calls that overflow a hot cache, tag/event/name/conditional invalidations, statistics queries) on real generated functions under a deterministic scheduler that switches at every lock acquisition (hook H1): seeded random schedules, then stateless DFS (exhaustive when the space fits the budget); deadlock = all unfinished threads parked at held locks; every operation's real lock trace checked against the Lean skeleton; quiescent dumps; sequential probe history vs the model"}
+            "what": what or "L3: 2-3 real threads running short programs (calls that overflow a hot cache, tag/event/name/conditional invalidations, statistics queries) on real generated functions under a deterministic scheduler that switches at every lock acquisition (hook H1): seeded random schedules, then stateless DFS (exhaustive when the space fits the budget); deadlock = all unfinished threads parked at held locks; every operation's real lock trace checked against the Lean skeleton; the real schedule replayed on the data-carrying interleaving model; quiescent dumps; sequential probe history vs the model"}
 
 def hammer_stream(quick=(3, 8, 400), thorough=(30, 12, 3000)):
     return {"kind": "hammer", "budget": {"quick": quick, "thorough": thorough}, "nontrivial": [],
@@ -226,8 +226,8 @@ PROPS = {
         "streams": [sched_stream(nontrivial=["nested-acquisition", "concurrent-call"]), hammer_stream()],
         "monitors": ["C18"],
         "rule": "scheduled runs of 2-3 real threads (calls overflowing a hot cache, group and conditional invalidations) followed by quiescent dumps and a 5-call sequential probe; non-trivial = a run with nested acquisitions or concurrent calls; distinct by (schedule, event trace)",
-        "level_text": "Lean theorems over a data-carrying interleaving model (one atomic micro-step per critical section, any number of threads, programs and schedules): every call returns f(k) for its own key; ASYNC: the store/queue invariant, the entry limit and the memory bound hold after EVERY micro-step; SYNC (store write precedes the queue push): at every point stored keys missing from the queue belong to in-flight stores and |store| <= limit + |in flight|; at quiescence every stored key is queued (evictable, expirable, invalidatable), the queue is duplicate-free, |store| <= limit under every policy and total memory <= max_memory; sequential use after quiescence keeps the bounds and correct values under the weaker invariant (orphan queue keys allowed); a one-thread system is exactly Cachelito.run. The pre-fix clear (F6) and async expired lookup (F8) are refuted with concrete schedules. Tied to the code by the scheduled runs: values per call, quiescent dumps checked directly, probe history vs the model from the dumped state, lock traces vs skeletons.",
-        "level_note": MODEL_NOTE + " The schedule replay of the data model (creplay) against recorded real schedules is not wired yet: the tie for the interleaving model is the agreement at quiescence plus the per-operation lock skeletons. DashMap operations are atomic in the model; sync insert_with_memory's queue section is one micro-step.",
+        "level_text": "Lean theorems over a data-carrying interleaving model (one atomic micro-step per critical section, any number of threads, programs and schedules): every call returns f(k) for its own key; ASYNC: the store/queue invariant, the entry limit and the memory bound hold after EVERY micro-step; SYNC (store write precedes the queue push): at every point stored keys missing from the queue belong to in-flight stores and |store| <= limit + |in flight|; at quiescence every stored key is queued (evictable, expirable, invalidatable), the queue is duplicate-free, |store| <= limit under every policy and total memory <= max_memory; sequential use after quiescence keeps the bounds and correct values under the weaker invariant (orphan queue keys allowed); a one-thread system is exactly Cachelito.run. The pre-fix clear (F6) and async expired lookup (F8) are refuted with concrete schedules. Tied to the code by the scheduled runs: every recorded REAL schedule (one thread id per critical section, derived from the hook events) is replayed on the interleaving model (ConcData.creplay) from the dumped initial state and must reproduce the final store/queue and every lookup result; plus values per call, quiescent dumps checked directly, probe history vs the model from the dumped state, lock traces vs skeletons; plus a free-running parallel stress stream.",
+        "level_note": MODEL_NOTE + " The replay covers the hot cache of each program (policies other than Random, whose draws are not recorded). DashMap operations are atomic in the model; sync insert_with_memory's queue section is one micro-step.",
         "technique": "Lean 4 theorem (invariants over all interleavings of atomic critical sections) + deterministic schedule exploration of real threads with quiescent-state and probe comparison",
         "design_ref": "DESIGN.md §7 C18", "assumptions": ["DashMap operations are linearizable"],
     },
